@@ -22,6 +22,7 @@ import (
 	"fmt"
 	"math/big"
 	"reflect"
+	"runtime"
 	"strconv"
 	"strings"
 )
@@ -1097,14 +1098,22 @@ func c11RefEncode(t *c11Ty, v reflect.Value) []byte {
 //   ok <canonical encoding (c11RefEncode) of the decoded value> <bytes consumed> | ok-huge | err      [+ " big"]
 // "big": the decoder allocated a read buffer larger than the whole input plus 1024 (io.ReadAll in
 // the error paths of decodePointer / decodeResult asks for 512 bytes).
+// "mem=hi": runtime.MemStats.TotalAlloc grew by more than 8*largest read buffer + 1 MiB + 4096*len(input).
 func c11Decode(t *c11Ty, data []byte) string {
 	dst := reflect.New(t.goType())
 	dst.Elem().Set(t.zero())
 	rd := &c11Reader{buf: bytes.NewBuffer(append([]byte{}, data...))}
+	var m0, m1 runtime.MemStats
+	runtime.ReadMemStats(&m0)
 	err := NewDecoder(rd).Decode(dst.Interface())
+	runtime.ReadMemStats(&m1)
 	suffix := ""
 	if rd.maxReq > len(data)+1024 {
 		suffix = " big"
+	}
+	// memory watchdog: total allocation far beyond what the read buffers and the input explain
+	if m1.TotalAlloc-m0.TotalAlloc > uint64(8*rd.maxReq+1<<20+4096*len(data)) {
+		suffix += " mem=hi"
 	}
 	if err != nil {
 		return "err" + suffix
